@@ -45,6 +45,8 @@ def _classify(ctx, case):
         ctx.cls("branch>=1000-points")
     if s["depth"] >= 8:
         ctx.cls("nesting>=8")
+    if s["depth"] >= 1000:
+        ctx.cls("nesting>=1000")
     return (s["depth"] >= 2 and s["after_inner_split"]) or s["empty_nonfinal"] or s["longest"] >= 1000
 
 
@@ -251,7 +253,7 @@ def run_raw(case, ctx):
 SUBCHECKS = [
     Sub("convert", convert_strategy, run_convert, quick=1000, thorough=12000, shards_quick=8,
         required={"material-after-inner-split": 60, "empty-non-final-alternative": 60, "empty-first-alternative": 40,
-                  "branch>=1000-points": 10, "nesting>=8": 10, "via:convert": 60, "via:call": 60,
+                  "branch>=1000-points": 10, "nesting>=8": 10, "nesting>=1000": 5, "via:convert": 60, "via:call": 60,
                   "has-colours-or-comments": 100, "comment-right-after-a-split-opens": 15, "comment-right-after-a-bar": 10, "annotated-document>16KB": 15,
                   "same-file-converted-three-times": 100, "label:AXON": 100, "label:DENDRITE": 100}),
     Sub("truncate", truncate_strategy, run_truncate, quick=400, thorough=5000, shards_quick=8,
